@@ -1760,12 +1760,17 @@ theorem ur_restore {dstP : PPath} (hd : dstP ≠ []) (hND : ∀ x ∈ dstP, Name
       (∀ d ∈ defs, (∀ x ∈ d.1, NameNS x) ∧ (dstP ++ d.1).length < resolveFuel ∧
         ∀ q, q <+: d.1 → IsDir (treeGet tree q)) →
       ∃ fs', restoreDirs fs (defs.map (urDirRec dstP)) = (fs', none) ∧ RealDir fs' dstP ∧
-        ∀ r, r ≠ [] → urView dstP fs' r = treeGet (applyDeferred tree defs) r := by
+        (∀ r, r ≠ [] → urView dstP fs' r = treeGet (applyDeferred tree defs) r) ∧
+        ((urView dstP fs [] = treeGet tree [] ∨ ∃ d ∈ defs, d.1 = []) →
+          urView dstP fs' [] = treeGet (applyDeferred tree defs) []) := by
   intro defs
   induction defs with
   | nil =>
     intro fs tree hreal hget _ _
-    exact ⟨fs, by rw [List.map_nil, restoreDirs], hreal, by rw [applyDeferred]; exact hget⟩
+    refine ⟨fs, by rw [List.map_nil, restoreDirs], hreal, by rw [applyDeferred]; exact hget, ?_⟩
+    rintro (h | ⟨d, hd', _⟩)
+    · rw [applyDeferred]; exact h
+    · cases hd'
   | cons d rest ih =>
     intro fs tree hreal hget hroot hdefs
     obtain ⟨p, mode, mtime⟩ := d
@@ -1785,7 +1790,7 @@ theorem ur_restore {dstP : PPath} (hd : dstP ≠ []) (hND : ∀ x ∈ dstP, Name
       by_cases he : q = p
       · rw [he, urSetAt_self]; exact ⟨_, _, rfl⟩
       · rw [urSetAt_ne _ _ he]; exact hq
-    obtain ⟨fs', hres, hreal', hget'⟩ := ih fs2 (treeSet tree p (.dir mode mtime)) hreal2
+    obtain ⟨fs', hres, hreal', hget', hroot'⟩ := ih fs2 (treeSet tree p (.dir mode mtime)) hreal2
       (by
         intro r hr
         rw [hview2, ur_treeGet_set]
@@ -1797,11 +1802,77 @@ theorem ur_restore {dstP : PPath} (hd : dstP ≠ []) (hND : ∀ x ∈ dstP, Name
         intro d hdm
         obtain ⟨h1, h2, h3⟩ := hdefs d (List.mem_cons_of_mem _ hdm)
         exact ⟨h1, h2, fun q hq => hmono q (h3 q hq)⟩)
-    refine ⟨fs', ?_, hreal', ?_⟩
+    refine ⟨fs', ?_, hreal', ?_, ?_⟩
     · rw [List.map_cons]
       show restoreDirs fs ((ofSegs (dstP ++ p), mode, mtime) :: rest.map (urDirRec dstP)) = (fs', none)
       rw [ur_restoreDirs_cons_ok hcm hct]; exact hres
     · rw [ur_applyDeferred_cons_dir hpdir]; exact hget'
+    · intro hor
+      rw [ur_applyDeferred_cons_dir hpdir]
+      apply hroot'
+      rw [hview2, ur_treeGet_set]
+      by_cases hp0 : p = []
+      · left; rw [hp0, urSetAt_self, urSetAt_self]
+      · have hne : ([] : RelPath) ≠ p := fun e => hp0 e.symm
+        rw [urSetAt_ne _ _ hne, urSetAt_ne _ _ hne]
+        rcases hor with h | ⟨d, hdm, hd0⟩
+        · exact Or.inl h
+        · right
+          rcases List.mem_cons.mp hdm with e | hdm'
+          · rw [e] at hd0; exact absurd hd0 hp0
+          · exact ⟨d, hdm', hd0⟩
+
+/-! ## the deferred list only grows; an entry for the destination itself is recorded -/
+
+theorem ur_untarEntry_deferred_mono {st st' : UntarState} {e : Entry} (h : untarEntry st e = some st') :
+    ∀ d ∈ st.deferred, d ∈ st'.deferred := by
+  unfold untarEntry at h
+  split at h
+  · cases h; exact fun d hd => hd
+  · split at h
+    · cases h
+    · simp only at h
+      split at h
+      · cases h; exact fun d hd => hd
+      · split at h
+        · split at h
+          · cases h; exact fun d hd => List.mem_append_left _ hd
+          · cases h; exact fun d hd => hd
+        · split at h
+          · cases h; exact fun d hd => hd
+          · split at h
+            · cases h; exact fun d hd => List.mem_append_left _ hd
+            · cases h; exact fun d hd => hd
+
+theorem ur_fold_deferred_root : ∀ (es : List Entry) (st st' : UntarState),
+    es.foldlM untarEntry st = some st' →
+    ((∃ d ∈ st.deferred, d.1 = []) ∨ ∃ e ∈ es, e.name ≠ [] ∧ entryRel e.name = [] ∧ e.isDir = true) →
+    ∃ d ∈ st'.deferred, d.1 = [] := by
+  intro es
+  induction es with
+  | nil =>
+    intro st st' hf hor
+    have : some st = some st' := hf
+    cases this
+    rcases hor with h | ⟨e, he, _⟩
+    · exact h
+    · cases he
+  | cons x rest ih =>
+    intro st st' hf hor
+    rw [List.foldlM_cons] at hf
+    cases hu : untarEntry st x with
+    | none => rw [hu] at hf; cases hf
+    | some st1 =>
+      rw [hu] at hf
+      apply ih st1 st' hf
+      rcases hor with ⟨d, hdm, hd0⟩ | ⟨e, he, hn, hp, hdir⟩
+      · exact Or.inl ⟨d, ur_untarEntry_deferred_mono hu d hdm, hd0⟩
+      · rcases List.mem_cons.mp he with e' | he'
+        · subst e'
+          rw [ur_untar_root_dir st e hn hdir hp] at hu
+          cases hu
+          exact Or.inl ⟨([], e.mode, e.mtime), by simp, rfl⟩
+        · exact Or.inr ⟨e, he', hn, hp, hdir⟩
 
 /-! ## `Unpack` against `untar` -/
 
@@ -1830,7 +1901,9 @@ theorem ur_unpack_refines {cwd dst : Str} {priv : Bool} {fs : FS} {es : List Ent
       e.name ≠ [] → UrEntryOK (pathSegs dst) ust1.tree e)
     (hu : untar es = some t) :
     (unpack cwd [] priv dst .none fs es).2 = .ok ∧
-    ∀ r, r ≠ [] → ((unpack cwd [] priv dst .none fs es).1).get (pathSegs dst ++ r) = treeGet t r := by
+    (∀ r, r ≠ [] → ((unpack cwd [] priv dst .none fs es).1).get (pathSegs dst ++ r) = treeGet t r) ∧
+    ((∃ e ∈ es, e.name ≠ [] ∧ entryRel e.name = [] ∧ e.isDir = true) →
+      ((unpack cwd [] priv dst .none fs es).1).get (pathSegs dst) = treeGet t []) := by
   have hd : pathSegs dst ≠ [] := hdst.segs_ne_nil
   have hND := absClean_segs dst hdst.absClean
   unfold untar at hu
@@ -1841,7 +1914,7 @@ theorem ur_unpack_refines {cwd dst : Str} {priv : Bool} {fs : FS} {es : List Ent
     simp only [Option.some.injEq] at hu
     obtain ⟨stF, hloop, hsim⟩ := ur_loop (cwd := cwd) (priv := priv) hdst rfl es 0 { fs := fs, dirs := [] }
       urInit ustF (ur_init_sim hreal hempty) hok hf
-    obtain ⟨fs', hres, _, hget'⟩ := ur_restore hd hND ustF.deferred stF.fs ustF.tree hsim.real hsim.get
+    obtain ⟨fs', hres, _, hget', hroot'⟩ := ur_restore hd hND ustF.deferred stF.fs ustF.tree hsim.real hsim.get
       hsim.inv.root (by
         intro d hdm
         obtain ⟨h1, h2⟩ := hsim.defn d hdm
@@ -1852,9 +1925,50 @@ theorem ur_unpack_refines {cwd dst : Str} {priv : Bool} {fs : FS} {es : List Ent
         · exact hsim.inv.above d.1 (ur_isDir_ne_none (hsim.defd d hdm)) q hq he)
     rw [← hsim.dirs] at hres
     rw [unpack_of_loop_none cwd [] priv dst hloop, hres]
-    refine ⟨rfl, ?_⟩
-    intro r hr
-    rw [← hu]
-    exact hget' r hr
+    refine ⟨rfl, ?_, ?_⟩
+    · intro r hr
+      rw [← hu]
+      exact hget' r hr
+    · intro hex
+      rw [← hu]
+      have := hroot' (Or.inr (ur_fold_deferred_root es _ _ hf (Or.inr hex)))
+      rw [ur_view_nil] at this
+      exact this
+
+/-! ## the depth limit of the filesystem model -/
+
+/-- with at least as many directory components as fuel, resolution runs out of fuel -/
+theorem ur_resolve_eloop (fs : FS) :
+    ∀ (fuel : Nat) (cur : PPath) (segs : List Seg) (follow : Bool),
+      (∀ x ∈ segs, x ≠ dotdot) → fuel ≤ segs.length →
+      (∀ a, cur <+: a → a ≠ cur → a <+: cur ++ segs → IsDir (fs.lookup a)) →
+      resolve fs fuel cur segs follow = .error .eloop := by
+  intro fuel
+  induction fuel with
+  | zero => intro cur segs follow _ _ _; simp [resolve]
+  | succ fuel ih =>
+    intro cur segs follow hn hlen hch
+    cases segs with
+    | nil => simp at hlen
+    | cons s rest =>
+      rw [resolve]
+      have hs : s ≠ dotdot := hn s (by simp)
+      rw [if_neg hs]
+      simp only
+      have hassoc : cur ++ s :: rest = (cur ++ [s]) ++ rest := by simp
+      obtain ⟨perm, mt, hl⟩ := hch (cur ++ [s]) (List.prefix_append _ _) (ur_append_ne_self cur [s] (by simp))
+        (by rw [hassoc]; exact List.prefix_append _ _)
+      rw [hl]
+      simp only
+      apply ih _ _ _ (fun x hx => hn x (List.mem_cons_of_mem _ hx))
+      · simp only [List.length_cons] at hlen; omega
+      · intro a h1 h2 h3
+        apply hch a (List.IsPrefix.trans (List.prefix_append _ _) h1)
+        · intro e
+          rw [e] at h1
+          have := List.IsPrefix.length_le h1
+          simp only [List.length_append, List.length_cons, List.length_nil] at this
+          omega
+        · rw [hassoc]; exact h3
 
 end Slug
